@@ -20,7 +20,8 @@ TRUSTED = ["Coq 8.16.1 kernel + vm_compute", "theorems closed under the global c
 ASSUMPTIONS = ["documented usage: the input file first, then flags; names and level values do not start with '-'",
                "'<basename>' = file name without directory and without its last extension"]
 
-VALID = {"dynamics": [{"expression": "x' = -x/tau + y", "initial_value": "1"}, {"expression": "y' = -y**2/4", "initial_value": "1/2"}]}
+# (written differently from the way the toolbox prints expressions, so that preserved text is distinguishable)
+VALID = {"dynamics": [{"expression": "x' = (0 - x)/tau + 1*y", "initial_value": "1"}, {"expression": "y' = (0 - y*y)/4", "initial_value": "1/2"}]}
 ANALYTIC = {"dynamics": [{"expression": "g' = -g/2", "initial_value": "1"}]}
 MALFORMED = {"dynamics": [{"expression": "x' = -x", "initial_values": {"x": "1", "x'": "0"}}]}
 SYSEXIT = {"dynamics": [{"expression": "x'' = -x + 1", "initial_values": {"x": "1", "x'": "0"}}]}
